@@ -187,8 +187,17 @@ pub fn gen_val(rng: &mut Rng, t: &Ty, pos: Pos, size: u32) -> Val {
     let s = size.saturating_sub(1);
     match t {
         Ty::Native(n) => gen_native(rng, n, pos),
-        Ty::List(e) => Val::List((0..count(rng)).map(|_| gen_val(rng, e, Pos::Elem, s)).collect()),
-        Ty::Set(e) => Val::Set((0..count(rng)).map(|_| gen_val(rng, e, Pos::Elem, s)).collect()),
+        Ty::List(e) | Ty::Set(e) => {
+            let vs: Vec<Val> = (0..count(rng)).map(|_| gen_val(rng, e, Pos::Elem, s)).collect();
+            // mostly the constructor of the type; sometimes another one (`Vec<CqlValue>` serves all three)
+            match (t, rng.below(12)) {
+                (_, 0) => Val::Vector(vs),
+                (Ty::List(_), 1) => Val::Set(vs),
+                (Ty::Set(_), 1) => Val::List(vs),
+                (Ty::List(_), _) => Val::List(vs),
+                _ => Val::Set(vs),
+            }
+        }
         Ty::Map(k, v) => Val::Map((0..count(rng)).map(|_| (gen_val(rng, k, Pos::Elem, s), gen_val(rng, v, Pos::Elem, s))).collect()),
         Ty::Vector(e, dim) => {
             let fixed = size_for_vector(e).is_some();
@@ -493,6 +502,20 @@ pub fn generate(rng: &mut Rng, tier: Tier, emit: &mut dyn FnMut(String)) {
         };
         let v = gen_val(rng, &t, Pos::Elem, 3);
         emit_dyn(emit, &t, &v);
+    }
+    // write_size = false at the top level (how a vector element is written)
+    for _ in 0..1_500 * scale {
+        let t = gen_ty(rng, 3);
+        let v = if rng.chance(1, 6) {
+            let t2 = gen_ty(rng, 2);
+            gen_val(rng, &t2, Pos::Nullable, 2)
+        } else {
+            gen_val(rng, &t, Pos::Nullable, 2)
+        };
+        if !matches!(v, Val::Null | Val::Unset) && to_cql(&v).is_none() {
+            continue;
+        }
+        emit(format!("dynraw {} {}", ty_str(&t), val_str(&v)));
     }
     for _ in 0..3_000 * scale {
         mismatch(rng, 3, emit);
